@@ -53,6 +53,6 @@ def bech32Acc (bz : List UInt8) : List UInt8 :=
   if bz.isEmpty then []
   else
     let data := to5 bz
-    hrpCosmos ++ [0x31] ++ (data ++ checksum hrpCosmos data).map (fun d => charset[d]!)
+    hrpCosmos ++ ((0x31 : UInt8) :: (data ++ checksum hrpCosmos data).map (fun d => charset[d]!))
 
 end SM.Keys.Bech32
